@@ -1,5 +1,6 @@
 import Sx.Lemmas.FailFastAll
 import Sx.Props.C13
+import Sx.Lemmas.RxLen
 /-
   C15 — mode changes keep handle, chip mode and interrupt routing consistent.
 -/
@@ -62,7 +63,7 @@ def loraModeSpec (opmod : Nat) (c : Chip) : Chip :=
     modulation, nothing else changes. -/
 theorem C15_lora (opmod : Nat) (ho : opmod < 8) (h : Handle) (c : Chip) :
     wp (setOpmod opmod 0x80) h ⟨c, [], []⟩ (fun r h' s' =>
-      r = .ok () ∧ h' = { h with activeModem := 0x80, opmod := opmod } ∧ s'.chip = loraModeSpec opmod c) := by
+      r = .ok () ∧ h' = setActiveModem opmod 0x80 h ∧ s'.chip = loraModeSpec opmod c) := by
   have hcases : opmod = 0 ∨ opmod = 1 ∨ opmod = 2 ∨ opmod = 3 ∨ opmod = 4 ∨ opmod = 5 ∨ opmod = 6 ∨ opmod = 7 := by omega
   unfold setOpmod loraModeSpec appendRegister
   rcases hcases with rfl | rfl | rfl | rfl | rfl | rfl | rfl | rfl <;>
@@ -110,7 +111,7 @@ theorem isLora_shared_41 (c : Chip) (m : Mem) (v : UInt8) (hm : m.rd 1 = c.share
 theorem C15_fsk_ook (opmod modulation : Nat) (ho : opmod < 8) (hmod : modulation = 0x00 ∨ modulation = 0x20)
     (h : Handle) (c : Chip) (hl : c.isLora = false) :
     wp (setOpmod opmod modulation) h ⟨c, [], []⟩ (fun r h' s' =>
-      r = .ok () ∧ h' = { h with activeModem := modulation, opmod := opmod } ∧ s'.chip = fskModeSpec opmod modulation c) := by
+      r = .ok () ∧ h' = setActiveModem opmod modulation h ∧ s'.chip = fskModeSpec opmod modulation c) := by
   have hcases : opmod = 0 ∨ opmod = 1 ∨ opmod = 2 ∨ opmod = 3 ∨ opmod = 4 ∨ opmod = 5 ∨ opmod = 6 ∨ opmod = 7 := by omega
   have hl40 : ∀ v, ({ c with shared := c.shared.wr 0x40 v } : Chip).isLora = false := fun v => by rw [isLora_shared_40, hl]
   have hl41 : ∀ v w, ({ c with shared := (c.shared.wr 0x40 v).wr 0x41 w } : Chip).isLora = false := fun v w => by
@@ -159,6 +160,56 @@ example : (fskModeSpec 5 0 Chip.init).shared.rd 0x01 = 0x05 ∧ (fskModeSpec 5 0
     ∧ (fskModeSpec 5 0 Chip.init).fsk.rd 0x35 = 0x1f ∧ Chip.init.isLora = false := by decide +kernel
 
 
+/-- **C15, what the handle records.** The new mode and modulation; when the call switches between
+    the LoRa modem and the FSK/OOK modem the packet in progress (expected length, bytes sent or
+    received so far, FSK RSSI sample) is forgotten, because it belongs to the modem that is left;
+    otherwise nothing else changes.  Every other field is kept in either case. -/
+theorem C15_handle_after (opmod modulation : Nat) (h : Handle) :
+    let h' := setActiveModem opmod modulation h
+    h'.activeModem = modulation ∧ h'.opmod = opmod ∧
+    (((h.activeModem = Gen.SX127x_MODULATION_LORA) ≠ (modulation = Gen.SX127x_MODULATION_LORA)) →
+        h' = { resetState h with activeModem := modulation, opmod := opmod } ∧ h'.expected = 0 ∧ h'.received = 0) ∧
+    (((h.activeModem = Gen.SX127x_MODULATION_LORA) = (modulation = Gen.SX127x_MODULATION_LORA)) →
+        h' = { h with activeModem := modulation, opmod := opmod }) ∧
+    h'.implicitHeader = h.implicitHeader ∧ h'.rxCb = h.rxCb ∧ h'.txCb = h.txCb ∧ h'.cadCb = h.cadCb ∧
+    h'.packet = h.packet ∧ h'.format = h.format ∧ h'.crcType = h.crcType ∧ h'.freqs = h.freqs ∧
+    h'.freqLen = h.freqLen ∧ h'.curFreq = h.curFreq := by
+  unfold setActiveModem
+  by_cases hc : (h.activeModem = Gen.SX127x_MODULATION_LORA) ≠ (modulation = Gen.SX127x_MODULATION_LORA)
+  · rw [if_pos hc]
+    exact ⟨rfl, rfl, fun _ => ⟨rfl, rfl, rfl⟩, fun e => absurd e hc, rfl, rfl, rfl, rfl, rfl, rfl, rfl, rfl, rfl, rfl⟩
+  · rw [if_neg hc]
+    exact ⟨rfl, rfl, fun e => absurd e hc, fun _ => rfl, rfl, rfl, rfl, rfl, rfl, rfl, rfl, rfl, rfl, rfl⟩
+
+/-- **C15, the handle after a successful mode change**, for every mode, modulation, handle and
+    every answer of chip and bus (no assumption on the chip at all): whenever `sx127x_set_opmod`
+    reports success the handle is `setActiveModem opmod modulation` of the old one. -/
+theorem C15_handle_on_success (opmod modulation : Nat) (h : Handle) :
+    (setOpmod opmod modulation h).fwp false
+      (fun _ rh => rh.1 = .ok () → rh.2 = setActiveModem opmod modulation h) := by
+  unfold setOpmod appendRegister
+  simp only [DM.fwp_bind', DM.fwp_rread, DM.fwp_swrite, DM.fwp_modH, DM.fwp_ite, DM.fwp_fail]
+  repeat' split
+  all_goals simp
+
+/-- **Switching modems starts from a clean packet state** (the hypothesis `expected = 0` of the
+    C05 theorems and `expected = 0 ∧ received = 0` of C03's `rx_start` and C04's `tx_queue`): a
+    successful mode change from FSK/OOK into LoRa, or from LoRa into FSK/OOK, leaves no expected
+    length and no byte count behind — whatever an abandoned transmission, a half-received packet
+    or a configured implicit-header length had left in the handle, and whatever the chip answers. -/
+theorem C15_modem_switch_forgets_packet (opmod modulation : Nat) (h : Handle)
+    (hx : (h.activeModem = Gen.SX127x_MODULATION_LORA) ≠ (modulation = Gen.SX127x_MODULATION_LORA)) :
+    (setOpmod opmod modulation h).fwp false
+      (fun _ rh => rh.1 = .ok () → rh.2.expected = 0 ∧ rh.2.received = 0 ∧ rh.2.activeModem = modulation) := by
+  refine Prog.fwp_mono _ _ _ _ ?_ (C15_handle_on_success opmod modulation h)
+  intro f rh hq hok
+  rw [hq hok]
+  have := C15_handle_after opmod modulation h
+  exact ⟨(this.2.2.1 hx).2.1, (this.2.2.1 hx).2.2, this.1⟩
+
+/-- non-vacuity: a handle in FSK with a 101-byte frame half sent enters LoRa sleep -/
+example : (setActiveModem 0 0x80 { activeModem := 0, expected := 101, received := 64 }).expected = 0 := by decide
+
 section failure
 open DM
 theorem KeepH_swrite (reg : Nat) (d : List UInt8) : KeepH (swrite reg d) := ⟨fun _ _ => by simp [DM.swrite, Prog.fwp]⟩
@@ -176,7 +227,7 @@ theorem C15_handle_unchanged_on_failure (opmod modulation : Nat) : TX (setOpmod 
   unfold setOpmod
   dsimp only
   have fin : TX (do swrite Gen.REGOPMODE [u8 opmod ||| u8 modulation]
-                    modH fun h => { h with activeModem := modulation, opmod := opmod }) :=
+                    modH (setActiveModem opmod modulation)) :=
     TX_bind_keep (KeepH_swrite _ _) (FS_swrite _ _) (fun _ => ⟨fun _ e => by cases e⟩)
   have modT : ∀ (g : Handle → Handle), TX (modH g) := fun g => ⟨fun _ e => by cases e⟩
   split
